@@ -13,9 +13,10 @@ def vep_events(r, chrom, t, dense):
     lo, hi = t['exons'][0][0], t['exons'][-1][1]        # 0-based half-open span
     bases = 'ACGT'
     evs = []
-    positions = range(max(1, lo - 1), min(len(chrom) - 5, hi + 2))
+    positions = range(max(1, lo - 3), min(len(chrom) - 5, hi + 3))
     for p in positions:            # p: 0-based position of the first affected base
-        if not dense and r.random() < 0.6:
+        # the transcript boundaries (three bases either side of the first and of the last base) are always covered
+        if not dense and r.random() < 0.6 and not (p <= lo + 2 or p >= hi - 4):
             continue
         ref = chrom[p]
         alt = r.choice([b for b in bases if b != ref])
@@ -46,10 +47,10 @@ def check_c14(tier):
     jl, meta = [], []
     for i in range(n_refs):
         ref = refgen.random_reference(r, n_genes=r.randrange(1, 3), coding_p=0.7, max_exons=3, aa_len=(6, 12), nc_len=(20, 45),
-                                      isoform_p=0.4, flank_p=0.6, utr5=(0, 6), utr3=(0, 8))
-        if r.random() < 0.3:
+                                      isoform_p=0.4, flank_p=0.8, utr5=(0, 6), utr3=(0, 8))
+        if r.random() < 0.5:
             for t in ref.txs.values():
-                if t.coding and r.random() < 0.5:
+                if t.coding and r.random() < 0.6:
                     t.tags.append('cds_start_NF')
         if r.random() < 0.6:
             # an antisense (or sense) non-coding gene overlapping an existing transcript: one site, two genes
